@@ -1,5 +1,6 @@
 import GoPlugin.Props.C17
 import GoPlugin.Generated.Facts
+import GoPlugin.Props.Hygiene
 /-
 C17 instantiated at the facts extracted from the current source (tie T-A):
 the obligation `facts_good` is re-checked on every run.  It fails on a tree
@@ -51,5 +52,9 @@ theorem holds_conditional_entries_from_config (c : ClientCfg) (cmdEnv hostEnv : 
 theorem holds_stdin_is_host_stdin (c : ClientCfg) (cmdEnv hostEnv : List Bytes) (s : Stdin) :
     (launch Facts.env c cmdEnv hostEnv s).stdin = .host :=
   (stdin_is_host_stdin _ facts_good c cmdEnv hostEnv s).1
+
+theorem holds_child_env_is_assembled (rewrite : List (String × String) → List (String × String)) (assembled : List (String × String)) :
+    Hygiene.childEnv Facts.hygiene rewrite assembled = assembled :=
+  Props.Hygiene.child_env_is_assembled _ (by decide) rewrite assembled
 
 end GoPlugin.Instance.C17
